@@ -5,6 +5,7 @@ writes, any of which may fail or be the last before a crash; commits are content
 -/
 import WrglModel.Model.Tx
 import WrglModel.Lemmas.C14
+import WrglModel.Lemmas.C14Advance
 import WrglModel.Gen.Facts
 namespace Wrgl
 
@@ -73,5 +74,46 @@ theorem C14_discard_fault (order : List String) (k : Nat) (s : TxSt) :
   unfold txDiscardFault txDiscard
   by_cases he : s.exists_ <;> by_cases hc : s.committed <;> simp [he, hc] <;>
     (split <;> try split) <;> simp_all
+
+/-- Across other operations: ordinary commits (`txAdvance`: `wrgl commit`, merge, pull …) land on ANY
+    branches after staging (`advs0`) and between an interrupted run and the re-run (`advs1`) — the
+    branches the interrupted run has already moved included. For every failure position and all
+    branch orders the re-run completes the transaction (or the first run had succeeded and the
+    re-run is refused), and every staged branch carries exactly ONE log entry and exactly ONE commit
+    of the transaction in its history, every other branch none: no duplicated commits. -/
+theorem C14_completable_across_advances (init : TxSt) (hf : init.Fresh)
+    (h0 : ∀ b, txCommitsIn (init.head b) = 0)
+    (advs0 advs1 : List (String × Nat)) (order1 order2 : List String)
+    (h1 : IsOrder init order1) (h2 : IsOrder init order2) (k : Option Nat) :
+    let r1 := txCommit Facts.txCommitGuarded order1 k (txAdvances advs0 init)
+    let r2 := txCommit Facts.txCommitGuarded order2 none (txAdvances advs1 r1.1)
+    (r2.2 = .ok ∨ (r1.2 = .ok ∧ r2.2 = .refused)) ∧
+    r2.1.committed = true ∧
+    (∀ b, (r2.1.logs.filter (fun l => l.branch == b)).length = if (init.staged.map (·.1)).contains b then 1 else 0) ∧
+    (∀ b, txCommitsIn (r2.1.head b) = if (init.staged.map (·.1)).contains b then 1 else 0) := by
+  rw [C14_fact_commitGuarded]
+  exact tx_completable_across_advances init hf h0 advs0 advs1 order1 order2 h1 h2 k
+
+/-- A run of the commit — interrupted anywhere or not — leaves a branch the transaction has already
+    moved exactly where it finds it, also when other operations have moved that branch on since
+    (`advs`), and does not log it a second time. -/
+theorem C14_rerun_keeps_moved_branch (s : TxSt) (b : String) (advs : List (String × Nat))
+    (hl : s.logs.any (fun l => l.branch == b) = true) (order : List String) (k : Option Nat) :
+    let s1 := txAdvances advs s
+    (txCommit Facts.txCommitGuarded order k s1).1.head b = s1.head b ∧
+    ((txCommit Facts.txCommitGuarded order k s1).1.logs.filter (fun l => l.branch == b)).length =
+      (s.logs.filter (fun l => l.branch == b)).length := by
+  rw [C14_fact_commitGuarded]
+  exact tx_rerun_keeps_moved_branch s b advs hl order k
+
+/-- An ordinary commit on a branch is invisible to the transaction: log, staged refs, status and
+    the other branches stay as they are. -/
+theorem C14_advance_frame (b : String) (n : Nat) (s : TxSt) :
+    (txAdvance b n s).logs = s.logs ∧ (txAdvance b n s).staged = s.staged ∧
+    (txAdvance b n s).committed = s.committed ∧ (txAdvance b n s).exists_ = s.exists_ ∧
+    (txAdvance b n s).head b = Cid.adv n (s.head b) ∧ ∀ b', b' ≠ b → (txAdvance b n s).head b' = s.head b' := by
+  refine ⟨rfl, rfl, rfl, rfl, ?_, fun b' hb => ?_⟩
+  · rw [C14.head_txAdvance]; simp
+  · rw [C14.head_txAdvance]; simp [hb]
 
 end Wrgl
